@@ -8,6 +8,7 @@ let () =
   | _ :: "cast" :: _ -> L_cast.run ()
   | _ :: "cycles" :: _ -> L_cycles.run ()
   | _ :: "resolve" :: _ -> L_resolve.run ()
+  | _ :: "lspdoc" :: _ -> L_lspdoc.run ()
   | _ ->
       prerr_endline "usage: oalmodel <layer>";
       exit 2
